@@ -187,18 +187,22 @@ func GenOps(s *ast.Schema, w *World, K int, kinds ...ast.Operation) []Case {
 		kinds = []ast.Operation{ast.Query, ast.Mutation}
 	}
 	var ops []string
+	depth := 4
+	if K >= 7 {
+		depth = 7 // only the tiny worlds are enumerated this deep
+	}
 	for _, k := range kinds {
 		switch k {
 		case ast.Query:
 			if s.Query == nil {
 				continue
 			}
-			for _, x := range g.gen(s.Query.Name, K, 4) {
+			for _, x := range g.gen(s.Query.Name, K, depth) {
 				ops = append(ops, "{ "+x.s+" }")
 			}
 		case ast.Mutation:
 			if s.Mutation != nil {
-				for _, x := range g.gen(s.Mutation.Name, K, 4) {
+				for _, x := range g.gen(s.Mutation.Name, K, depth) {
 					ops = append(ops, "mutation { "+x.s+" }")
 				}
 			}
